@@ -7,6 +7,7 @@ F=${1:-.}
 # ALL=1: every unexported function and field of the repository (lists from checker/anchors_gen.go), not only the ones the rules name
 FUNCS='yang.(*Modules).resolveIdentities yang.(*Modules).add yang.build yang.(YangRange).parseChildRanges yang.(*typeDictionary).find yang.module yang.initTypes yang.findInDir yang.errorSort yang.buildASTWithTypeDict yang.(Number).addQuantum yang.(*typeDictionary).findExternal yang.(*parser).push yang.(*parser).nextStatement yang.(*parser).next yang.(*lexer).emitText yang.(*Value).asRangeInt yang.(*Entry).delete yang.(*Modules).include yang.(*Modules).process yang.addChildren yang.(*Entry).merge yang.(*Entry).dup yang.(*Entry).shallowDup yang.(*Entry).add yang.(*typeDictionary).resolveTypedefs yang.(*typeDictionary).typedefs yang.(*typeDictionary).adopt yang.(*typeDictionary).forget yang.(*lexer).next yang.(*lexer).backup yang.(*lexer).updateCursor yang.(*lexer).skipTo yang.lexGround yang.lexQString yang.lexUnquoted yang.(*Entry).importErrors yang.(*Entry).checkErrors yang.(*Entry).addError yang.(*Entry).errorf yang.newError yang.sortedModules yang.(*Module).findIdentityBase yang.(Number).frac yang.pow10 yang.decimalValueFromString yang.getPrefix yang.semCheckMaxElements yang.(*Modules).getEntryCache yang.(*Modules).setEntryCache indent.actualWrittenSize yang.trimLocalPrefix yang.newResolvedIdentity yang.(*Identity).modulePrefixedName yang.coalesce'
 FIELDS='yang.Modules.includes yang.Modules.mergedSubmodule yang.Modules.byNS yang.Modules.entryCache yang.Modules.nsMu yang.Modules.entryCacheMu yang.Modules.typeDict yang.Modules.expandingGrouping yang.typeDictionary.dict yang.typeDictionary.mu yang.typeDictionary.resolving yang.typeDictionary.typeErrs yang.typeDictionary.resolvedTypes yang.typeDictionary.identities yang.identityDictionary.dict yang.identityDictionary.mu yang.lexer.col yang.lexer.line yang.lexer.tcol yang.lexer.pos yang.lexer.width yang.lexer.state yang.lexer.inPattern yang.lexer.sline yang.lexer.scol yang.parser.statementDepth yang.parser.hitBrace yang.Entry.deviatePresence yang.Entry.namespace yang.EnumType.last yang.EnumType.min yang.EnumType.max yang.EnumType.unique yang.Statement.statements yang.yangStatement.funcs yang.yangStatement.required yang.yangStatement.sRequired yang.yangStatement.addext indent.iw.partial indent.iw.prefix indent.iw.w'
+TYPES='yang.lexer yang.parser yang.token yang.stateFn yang.typeDictionary yang.identityDictionary yang.yangStatement yang.meta yang.sortedErrors yang.sError yang.resolvedIdentity yang.deviationPresence yang.deviationType indent.iw yang.code yang.UsesStmt yang.DeviatedEntry yang.RPCEntry'
 run_one() {
   kind=$1; name=$2
   tag=$(echo "$name" | tr -c 'A-Za-z0-9' '_')
@@ -38,4 +39,4 @@ for n in re.findall(r'^\t"([^"]+)":\s+\{"[^"]*", nil\}', s, re.M):
 PY
 )
 fi
-{ for f in $FUNCS; do echo "func $f"; done; for f in $FIELDS; do echo "field $f"; done; } | grep "$F" | xargs -r -P 8 -L 1 bash -c 'run_one $0 $1' | sort
+{ for f in $FUNCS; do echo "func $f"; done; for f in $FIELDS; do echo "field $f"; done; for f in $TYPES; do echo "type $f"; done; } | grep "$F" | xargs -r -P 8 -L 1 bash -c 'run_one $0 $1' | sort
